@@ -10,6 +10,7 @@ mod api;
 mod c01;
 mod c02;
 mod c11;
+mod c12;
 mod c15;
 mod c16;
 mod misc;
@@ -39,6 +40,7 @@ fn checks() -> Vec<CheckDef> {
         CheckDef { id: "C09", level: "exploration", run: api::run_c09, replay: api::replay_c09 },
         CheckDef { id: "C10", level: "exploration", run: api::run_c10, replay: api::replay_c10 },
         CheckDef { id: "C11", level: "exploration", run: c11::run, replay: c11::replay },
+        CheckDef { id: "C12", level: "exploration", run: c12::run, replay: c12::replay },
         CheckDef { id: "C13", level: "exploration", run: uri::run_c13, replay: uri::replay_c13 },
         CheckDef { id: "C14", level: "exploration", run: uri::run_c14, replay: uri::replay_c14 },
         CheckDef { id: "C15", level: "exploration", run: c15::run, replay: c15::replay },
@@ -57,6 +59,11 @@ fn main() {
             _ => 2,
         };
         std::process::exit(code);
+    }
+    if args.len() >= 3 && args[1] == "gen-fixtures" {
+        c12::gen_fixtures(&args[2]).expect("fixtures");
+        println!("fixtures written to {}", args[2]);
+        return;
     }
     if args.len() < 3 {
         eprintln!("usage: chk <ID> quick|thorough | chk <ID> --replay <file>");
